@@ -29,6 +29,14 @@ CLAIMED = {
   note="Trusts: ThreadSanitizer's happens-before analysis over executed schedules; yield-point granularity; harness node types stand in for user nodes; porcupine Unknown is counted, never reported.",
   technique="deterministic simulation: seeded goroutine scheduler + race detector + linearizability check of the recorded history",
  ),
+ "C01": dict(
+  engine="choice-stream history simulation with snapshot model (sequential) + detsched and race detector (concurrent); simio.Disk for failing exports",
+  category="exploration",
+  text="Branching derivation histories over a pool of live meshes: operations are drawn by reflection over all 71 exported Mesh methods, 27 meshops/gausops transformers, repeat.Mesh and seven format writers onto a simulated disk that fails at a seeded offset, with receivers biased towards shared bases and results of Append; every live value is snapshotted bit for bit through public accessors when obtained and re-verified after every operation. In the concurrent mode 2-3 tasks derive from the same shared meshes under the seeded scheduler with the race detector watching. Sampled histories and schedules.",
+  design_ref="DESIGN.md 3.5",
+  note="Trusts: the harness never writes to memory it shares with the library; only well-formed meshes are kept in the pool (the library's behaviour on ill-formed ones follows Go map order); uncovered parameter types are reported in the evidence.",
+  technique="deterministic simulation: seeded branching operation histories against a snapshot model, injected disk failures, seeded goroutine scheduler + race detector",
+ ),
  "C10": dict(
   engine="detsched (seeded scheduler over real goroutines) + race detector; sequential variant as reference",
   category="exploration",
